@@ -510,6 +510,13 @@ def d1_session(ctx):
         ck.expect(p is None, 'C18-D1', pr.qual, 'nothing rewrites %s after _process_authentication()' % LOOP,
                   'the loop type is overwritten after the authentication branch: the "already retried" guard never holds and a '
                   'server answering 401 forever is retried forever', pr.loc(a.stmt), path=describe_path(p) if p else None)
+        # ... and nothing rewrites it BEFORE the authentication branch either: the guard must see what the previous response left
+        pb = cfg.find_path(cfg.entry, lambda m, a=a: m is a, edge_ok=F.normal, stop=lambda m: False)
+        pre = [m for m in nodes if loop_store(m) and cfg.find_path(cfg.entry, lambda x, m=m: x is m, edge_ok=F.normal) is not None
+               and cfg.find_path(m, lambda x, a=a: x is a, edge_ok=F.normal) is not None]
+        ck.expect(not pre, 'C18-D1', pr.qual, 'nothing rewrites %s before _process_authentication() tests it' % LOOP,
+                  'the loop type is reset before the authentication branch tests it: the "already retried once" guard never holds and '
+                  'a server that keeps answering 401 is retried without end', pr.loc(pre[0].stmt) if pre else pr.loc())
     allowed_loop = {init.qual, pr.qual, au.qual}
     for f, s in _class_stores(repo, ws, LOOP):
         ck.expect(f.qual in allowed_loop, 'C18-D1', f.qual, norm_text(s),
